@@ -80,6 +80,13 @@ func main() {
 	go func() { v2, e2 = loadProg("v2", filepath.Join(*repo, "v2"), lc); done <- struct{}{} }()
 	<-done
 	<-done
+	// (the table of discipline components is filled by Discs(): once, before any rule runs)
+	if e1 == nil && v1 != nil {
+		v1.Discs()
+	}
+	if e2 == nil && v2 != nil {
+		v2.Discs()
+	}
 
 	if *dump != "" {
 		if e1 != nil || e2 != nil {
